@@ -2,6 +2,7 @@ import Aplang.Thm.C11
 import Aplang.Proofs.SpanInLexer
 import Aplang.Proofs.SpanInParser
 import Aplang.Proofs.SpanInEval
+import Aplang.Proofs.FsLemmas
 /-!
 # C11 (first sentence, global form) — every diagnostic labels byte ranges inside the source, on character boundaries
 
@@ -594,21 +595,9 @@ example : ∃ e, (run cfg0 200 mainSrc world1 []).status = .rtErr e ∧ InSrc mo
   have hfiles : FilesNoFsWrite cfg0 world1 := by
     intro p text prog hread _ hparse
     have htext : text = modText := by
-      unfold Fs.fileRead at hread
-      split at hread
-      · cases hread
-      · split at hread
-        · rename_i c hfind
-          cases hread
-          simp only [world1, Fs.find?] at hfind
-          split at hfind
-          · cases hfind
-          · simp only [List.find?_cons, List.find?_nil] at hfind
-            split at hfind
-            · simp only [Option.map_some, Option.some.injEq, FsNode.file.injEq] at hfind
-              exact hfind.symm
-            · cases hfind
-        · cases hread
+      obtain ⟨q, hm⟩ := Fs.fileRead_mem _ _ _ hread
+      simp only [world1, List.mem_singleton, Prod.mk.injEq, FsNode.file.injEq] at hm
+      exact hm.2
     subst htext
     exact parsedImportsOK_sound (isNotFsTok_sound CharEnv.ascii) hmod prog hparse
   rcases run_rtErr_span_in_sources_live CharEnv.ascii 200 mainSrc world1 []
@@ -620,21 +609,9 @@ example : ∃ e, (run cfg0 200 mainSrc world1 []).status = .rtErr e ∧ InSrc mo
     rw [h2] at h1
     exact absurd h1 (by decide)
   · have htext : text = modText := by
-      unfold Fs.fileRead at hread
-      split at hread
-      · cases hread
-      · split at hread
-        · rename_i c hfind
-          cases hread
-          simp only [world1, Fs.find?] at hfind
-          split at hfind
-          · cases hfind
-          · simp only [List.find?_cons, List.find?_nil] at hfind
-            split at hfind
-            · simp only [Option.map_some, Option.some.injEq, FsNode.file.injEq] at hfind
-              exact hfind.symm
-            · cases hfind
-        · cases hread
+      obtain ⟨q, hm⟩ := Fs.fileRead_mem _ _ _ hread
+      simp only [world1, List.mem_singleton, Prod.mk.injEq, FsNode.file.injEq] at hm
+      exact hm.2
     subst htext
     exact h
 
